@@ -71,8 +71,10 @@ class Session:
 
         # decrypted TLS 1.3 handshake bytes not yet consumed as whole messages, per direction (key: isserver)
         self.handshake_buffer = {True: b"", False: b""}
-        # bytes of a plaintext handshake message fragmented across records that are still to come, per direction
+        # bytes of a plaintext handshake message fragmented across records that are still to come, per direction,
+        # and the first bytes of a message header that a record boundary has cut
         self.handshake_pending = {True: 0, False: 0}
+        self.handshake_partial = {True: b"", False: b""}
 
         self.can_decrypt = False
         self.client_hello_seen = False
@@ -325,11 +327,14 @@ class Session:
 
         # a handshake message may be fragmented across records (RFC 5246 6.2.1): a record that starts inside one has no message header
         continued = self.handshake_pending[isserver]
+        partial = self.handshake_partial[isserver]
+        data = partial + record.binary
         index = continued
-        while index + 4 <= len(record.binary):
-            index += 4 + int.from_bytes(record.binary[index + 1:index + 4], 'big')
-        self.handshake_pending[isserver] = max(index - len(record.binary), 0)
-        if continued > 0:
+        while index + 4 <= len(data):
+            index += 4 + int.from_bytes(data[index + 1:index + 4], 'big')
+        self.handshake_pending[isserver] = max(index - len(data), 0)
+        self.handshake_partial[isserver] = data[index:]
+        if continued > 0 or len(partial) > 0:
             return
 
         match record.binary[0]:
